@@ -824,11 +824,29 @@ func r14loop(c *core.Ctx) {
 // parameter> into its receiver's byteOffset.
 var reOtherParam = regexp.MustCompile(`(^|[^A-Za-z0-9_.])p[1-9]([^0-9A-Za-z_]|$)`)
 
-func advancesCursorByParam(g *ssa.Function) bool {
-	if len(g.Blocks) == 0 || len(g.Params) < 2 || derefNamed(g.Params[0].Type()) != pAper+".perBitData" {
+func advancesCursorByParam(g *ssa.Function) bool { return advancesCursorByParamD(g, 0) }
+
+func advancesCursorByParamD(g *ssa.Function, depth int) bool {
+	if depth > 3 || len(g.Blocks) == 0 || len(g.Params) < 2 || derefNamed(g.Params[0].Type()) != pAper+".perBitData" {
 		return false
 	}
 	gp := core.NewPather(g)
+	// through another method of the reader that does (takeBits → takeOctets), handed a value of g's parameters
+	for _, ci := range core.Calls(g) {
+		h := ci.Common().StaticCallee()
+		if h == nil || h == g || fnPkgPath(h) != pAper || len(ci.Common().Args) < 2 || gp.Path(ci.Common().Args[0]) != "p0" {
+			continue
+		}
+		dep := false
+		for _, a := range ci.Common().Args[1:] {
+			if reOtherParam.MatchString(gp.Path(a)) {
+				dep = true
+			}
+		}
+		if dep && advancesCursorByParamD(h, depth+1) {
+			return true
+		}
+	}
 	for _, b := range g.Blocks {
 		for _, in := range b.Instrs {
 			if st, ok := in.(*ssa.Store); ok && gp.Path(st.Addr) == "p0.byteOffset" {
